@@ -64,7 +64,7 @@ class C19(object):
             '>= 2 series and >= 1 data row' % BATCH)
     assumptions = ['priority order (iteration, iteration_error, iteration_abs_change, k, t) is the documented one',
                    "the table is compared structurally (lines split on newline, cells on tab), not byte for byte"]
-    required_counters = ('synthetic.judged', 'solve.judged', 'cells.compared')
+    required_counters = ('synthetic.judged', 'solve.judged', 'cells.compared', 'synthetic.rerendered_after_dict_op')
 
     def n_cases(self, tier):
         return 40 if tier == 'quick' else 4000
@@ -136,7 +136,42 @@ class C19(object):
                     rec.violate('render_raised', {'holder': hd, 'err': repr(e)})
                     continue
                 rec.count('synthetic.judged')
-                self.judge_table(hd['data'], hd['fmt'], text, rec, {'fmt': hd['fmt'], 'names': hd['names'][:10]})
+                ok = self.judge_table(hd['data'], hd['fmt'], text, rec, {'fmt': hd['fmt'], 'names': hd['names'][:10]})
+                # the holder is a dict: change what is stored through ordinary dict operations and render again
+                for step in range(rng.choice([0, 1, 2, 3]) if ok else 0):
+                    how = rng.choice(['update', 'setdefault', 'pop', 'del', 'append', 'setitem', 'ior', 'popitem',
+                                      'clear_refill'])
+                    new_name = rng.choice(NAMEPOOL + list(monitors.PRIORITY))
+                    vals = [float(rng.randint(-9, 9)) for _ in range(rng.randint(1, 4))]
+                    try:
+                        if how == 'update':
+                            th.update({new_name: vals})
+                        elif how == 'setdefault':
+                            th.setdefault(new_name, vals)
+                        elif how == 'pop' and len(th):
+                            th.pop(rng.choice(sorted(th.keys())))
+                        elif how == 'del' and len(th):
+                            del th[rng.choice(sorted(th.keys()))]
+                        elif how == 'append':
+                            th.AppendValue(new_name, vals[0])
+                        elif how == 'setitem':
+                            th[new_name] = vals
+                        elif how == 'ior':
+                            th |= {new_name: vals}
+                        elif how == 'popitem' and len(th):
+                            th.popitem()
+                        elif how == 'clear_refill':
+                            th.clear()
+                            th[new_name] = vals
+                        text = th.GenerateCSVtext(hd['fmt'])
+                    except Exception as e:
+                        rec.violate('render_raised_after_dict_operation', {'op': how, 'err': repr(e),
+                                                                           'names': sorted(th.keys())[:10]})
+                        break
+                    rec.count('synthetic.rerendered_after_dict_op')
+                    if not self.judge_table(dict(th), hd['fmt'], text, rec,
+                                            {'fmt': hd['fmt'], 'after_dict_operation': how, 'names': sorted(th.keys())[:12]}):
+                        break
                 if len(hd['names']) >= 2 and min(len(v) for v in hd['data'].values()) >= 1:
                     keys.append(chash([hd['names'], hd['fmt'], repr(hd['data'])]))
                 if obs is None and hd['names']:
